@@ -46,10 +46,10 @@ CHECKS = [
          technique='TLA+ transcription of calc_omen_keyspace/_rec_calc_keyspace (MC_Omen.tla CalcKeyspace, constants FixKeyLen/FixKeyZero) model-checked against Cardinality(LevelSet) for every small model; the real calc_omen_keyspace is called on every exported model and real trainings are compared three ways (omen_keyspace.txt, generator count, TLC cardinality) by TrOmen',
          text='Keyspace exactness is decided on the model for all small models and on the real function for the same models; trained rulesets dominated by n-gram-size passwords or a single length are checked end to end.',
          note='Saved probability identity (count/N)/keyspace compared in Python with 1e-12. The max_keyspace cut-off (1e10) is not reachable by a recorded run and is not claimed.'),
-    dict(pid='C11', cat='exploration', design='5/C11',
-         technique='TLC evaluates Omen!Level (single TLA+ definition) on the level tables exported from the trainer memory and compares it with the levels reported by the real trainer third pass, the real OmenScorer and the real Markov generator for every candidate string (TrOmen clauses C11_*), plus omen_pws_per_level against the tally of Level',
+    dict(pid='C11', cat=MC, design='5/C11',
+         technique='TLA+ transcriptions of the trainer find_omen_level and the scorer OmenScorer.parse (MC_Omen TrainerLevel / ScorerLevel) model-checked by TLC against Omen!Level for every trainer-shaped model in bound and every string up to one character beyond the longest length incl. a foreign character (ThreeAgree; the generator side is OmenEnum = LevelSet); every model of that space given to the three real implementations; TLC evaluates Omen!Level (single TLA+ definition) on the level tables exported from the trainer memory and compares it with the levels reported by the real trainer third pass, the real OmenScorer and the real Markov generator for every candidate string (TrOmen clauses C11_*), plus omen_pws_per_level against the tally of Level',
          text='Agreement of three implementations with one TLA+ definition on real trainings (several lists incl. rare initial n-grams, n-gram sizes 2-5, alphabet sizes) and candidate strings incl. out-of-alphabet characters and boundary lengths.',
-         note='Exploration-grade: inputs are sampled trainings. The smoothing logarithm is not modelled (level tables are data). UTF-8 rulesets (other encodings are C07).'),
+         note='Model-checked on the small model space; trainer-produced rulesets are sampled trainings. The smoothing logarithm is not modelled (level tables are data). UTF-8 rulesets (other encodings are C07).'),
     dict(pid='C12', cat=MC, design='5/C12',
          technique='TLA+ Session.tla (Main || Kbd processes with program counters, keyboard scripts incl. EOF, .sav/.omn store, reload) model-checked by TLC over all interleavings; the real keypress thread and the real CrackingSession.run are run in real threads stopped at gates (input, sleep, status, set_exit / pop, read_alive, read_exit, emit, save) and released under systematic (keyboard burst at every step) and random schedules; the real script is run under every stdin condition (open pipe, EOF, /dev/null, closed fd, pty, status requests); all recorded histories (session + its resume) are validated by TLC against TrSession',
          text='Every interleaving of a small session is explored on the model; on the code, deterministic gate-to-gate schedules place the keyboard thread\'s steps at every position of the main loop, and the recorded streams are accepted only if they are an unaltered contiguous part of the expected stream, not shortened without a quit, stopped at a legal point, and resumable to exactly the remainder.',
